@@ -185,6 +185,8 @@ def obligations(tier):
             for nsets in (1, 2, 3):
                 if nsets == 3 and not (t in ("chain", "sumrange") and cfg in ("nodata", "stored")):
                     continue
+                if nsets == 2 and (t == "tables" or (cfg in ("json", "pkl") and t not in ("chain", "cse", "sumrange"))):
+                    continue        # sized so that the tier runs to completion (was 4516 obligations)
                 for tag, seq, mid, sk in skeletons(t, nsets, tier):
                     if nsets == 3 and (len(set(seq)) == 3 or mid is None):
                         continue
